@@ -135,6 +135,22 @@ func check(c Case) (o h.Outcome) {
 			kinOK, short(kinErr), ref.Valid, ref.FailKeyword, ref.FailPath, c.Schema, c.Value, c.Rep)
 		return
 	}
+	// the verdict does not depend on how errors are reported: collecting every error instead of
+	// stopping at the first accepts and rejects the same values
+	var multiErr error
+	if !o.Guarded("VisitJSON-MultiErrors", func() { multiErr = ks.VisitJSON(kv, openapi3.MultiErrors()) }) {
+		return
+	}
+	if (multiErr == nil) != ref.Valid {
+		dir := "accepts-invalid"
+		detail := ref.FailKeyword
+		if multiErr != nil {
+			dir, detail = "rejects-valid", errField(multiErr)
+		}
+		o.Fail(fmt.Sprintf("multi-errors:%s:%s", dir, detail), "VisitJSON(MultiErrors) err=%v but reference evaluator says valid=%v (failing keyword %q at %q)\nschema=%s\nvalue=%s rep=%s",
+			short(multiErr), ref.Valid, ref.FailKeyword, ref.FailPath, c.Schema, c.Value, c.Rep)
+		return
+	}
 	if kinMatch != kinOK {
 		o.Fail("ismatching-differs", "IsMatching=%v but VisitJSON err=%v\nschema=%s\nvalue=%s", kinMatch, short(kinErr), c.Schema, c.Value)
 	}
@@ -229,7 +245,7 @@ func instances() []inst {
 	add("pattern", `{"pattern":"^..$"}`)
 	add("pattern", `{"pattern":"^\\u0041\\u0042$"}`)
 	add("pattern", `{"pattern":"[\\u00C9\\u00D8x]"}`)
-	add("pattern", `{"pattern":"^\\u00e9"}`)        // hexadecimal digits in lower case
+	add("pattern", `{"pattern":"^\\u00e9"}`)    // hexadecimal digits in lower case
 	add("pattern", `{"pattern":"^\\\\u0041$"}`) // an escaped backslash, then the letters u0041
 	add("minItems", `{"minItems":1}`)
 	add("minItems", `{"minItems":2}`)
